@@ -16,6 +16,17 @@ EXPLANATION = (
     "(4) the Rust wrappers' reset zero both totals and call the core reset. Decides the structural "
     "necessary condition only, not behavioural equality.")
 
+CLAIM = dict(
+    text="Static field-coverage proof obligations over MIR: every leaf field of the deflate/inflate state is written on "
+         "every success path of the reset call chain or is a listed configuration/dead field; deflateCopy's State "
+         "aggregate is field-wise the source or a buffer rebuilt on the new allocation; inflateCopy re-points every "
+         "owning pointer. Holds for all histories because it is a statement about program text; behavioural equality "
+         "of copies/resets beyond this clause is not decided.",
+    note="Trusted: rustc's MIR; the classification tables (configuration / dead-on-reset / re-pointed / non-owning) "
+         "confirmed by reading, one reason each; host target only.",
+    technique="interprocedural must-write dataflow + aggregate field classification over rustc MIR",
+)
+
 STOP = (Z + "weak_slice::WeakSliceMut", Z + "weak_slice::WeakArrayMut")
 
 # ---- deflate::State: fields that survive reset by contract, with the reason -------------------
